@@ -81,7 +81,7 @@ class C01(Prop):
 
     MODES = [None, 0, 0, 1, 2, 3, 4, 5, 7, 8, 9, 11, 12, 15, 16, -1, 'x', '7', ' 3 ', 2.0, True, False, '']
     RESETS = [None, None, True, False, 'true', 'false', 'junk', 1, 0]
-    REPLS = [None, None, '[R]', '<i>r</i>', '']
+    REPLS = [None, None, '[R]', '<i>r</i>', '', 42, 2.5, True, False, 0]
 
     def corpus(self, ctx):
         big = 3000 if ctx.tier == 'quick' else 8000
